@@ -2,6 +2,7 @@
 package c16
 
 import (
+	"bytes"
 	"fmt"
 	"io/ioutil"
 	"runtime"
@@ -141,7 +142,38 @@ func gen(r *rng.R, sim *detsim.Sim, rs *cstypes.RoundState, att attacker, known 
 		if rs.ProposalBlockParts != nil && rs.ProposalBlockParts.IsComplete() {
 			real, _ = ioutil.ReadAll(rs.ProposalBlockParts.GetReader())
 		}
-		switch x := r.Intn(9); {
+		switch x := r.Intn(11); {
+		case x >= 9:
+			// the TWIN of the round's real proposal block: same header (hence the same block hash), a body that
+			// differs in a byte no header field commits to (the BlockID recorded inside the last commit), hence
+			// other part-set bytes. The victim may hold it when +2/3 precommit the real block.
+			var real2 []byte
+			tot, have := 0, map[int][]byte{}
+			for _, pm := range sim.Pool {
+				if bp, ok := pm.Msg.(*cs.BlockPartMessage); ok && bp.Height == h && bp.Round == round && bp.Part != nil && !pm.Byz {
+					have[bp.Part.Index] = bp.Part.Bytes
+					if bp.Part.Index+1 > tot {
+						tot = bp.Part.Index + 1
+					}
+				}
+			}
+			for i := 0; i < tot; i++ {
+				if have[i] == nil {
+					real2 = nil
+					break
+				}
+				real2 = append(real2, have[i]...)
+			}
+			if len(real2) == 0 {
+				real2 = real
+			}
+			var tb *types.Block
+			if len(real2) > 0 && ser.DecodeBytes(real2, &tb) == nil && tb != nil && tb.Header != nil && tb.LastCommit != nil {
+				tb.LastCommit.BlockID.PartsHeader.Total += 1 + r.Intn(3)
+				if b, err := ser.EncodeToBytes(tb); err == nil && !bytes.Equal(b, real2) {
+					bz, f = b, "block=twin-same-header-other-body "
+				}
+			}
 		case x == 0:
 			bz, f = []byte{0xc0}, "block=empty-list "
 		case x == 1:
